@@ -122,7 +122,13 @@ def rule_d(ctx):
     c12.rule_d(ctx)
 
 
+def rule_e(ctx):
+    """the receiver handles messages strictly in pop order, each to completion"""
+    from . import c05
+    c05.recv_awaits_handler(ctx)
+
 RULES = [
+    ("C02.e", "the receiver processes popped messages one at a time, to completion", rule_e),
     ("C02.a", "a send completes only after the push succeeded", rule_a),
     ("C02.b", "port sends are awaited in place", rule_b),
     ("C02.c", "a broadcast completes only when all sub-sends completed", rule_c),
